@@ -249,9 +249,19 @@ pub fn all_lenses() -> Vec<Lens> {
             n_thorough: 7,
         },
         Lens {
+            // double encoding: components whose DECODED text looks like an escape (%40, %2F, %2e, %41)
+            // or ends in a bare '%'. Exactly one decoding step may be applied, by every type.
+            name: "A12-double-encoding",
+            prefixes: vec!["pkg:t/", "pkg:npm/", "pkg:maven/", "pkg:t/n@", "pkg:t/n?k=", "pkg:t/n#", "pkg:golang/g/n#", "pkg:pypi/"],
+            alphabet: vec!["%2540", "%252F", "%252e", "%2541", "%25", "/", "a", ".", "@", "%40", "%2F"],
+            suffixes: vec![""],
+            n_quick: 5,
+            n_thorough: 7,
+        },
+        Lens {
             name: "A7-typed-names",
             prefixes: vec!["pkg:cargo/", "pkg:gem/", "pkg:golang/", "pkg:maven/", "pkg:npm/", "pkg:nuget/", "pkg:PyPI/", "pkg:pypi/", "pkg:generic/"],
-            alphabet: vec!["a", "A", "-", "_", ".", "/", "@", "1", "é", "É", "ǅ"],
+            alphabet: vec!["a", "A", "-", "_", ".", "/", "@", "1", "é", "É", "ǅ", ":"],
             suffixes: vec![""],
             n_quick: 5,
             n_thorough: 7,
